@@ -94,7 +94,8 @@ def render_sdl(s, order=None, explicit_roots=False, extensions=False):
         elif key == "inputs":
             d = s["inputs"][n]
             out.append("input %s%s { %s }" % (n, " @oneOf" if d.get("one_of") else "", " ".join("%s: %s%s" % (x[0], x[1], (" = %s" % x[2]) if len(x) > 2 and x[2] is not None else "") for x in d["fields"])))
-    return "\n".join(out + tail)
+    # `extend type X` may stand anywhere in the document, also before `type X` (modular schemas concatenated file by file)
+    return "\n".join((tail + out) if extensions == "first" else (out + tail))
 
 
 def render_json(s, order=None, wrap_data=False, with_builtin=True, is_one_of_key=True):
@@ -241,6 +242,7 @@ def c07_differential(tier):
                 base = tokens_of(gen(render_sdl(s), "graphql", q, opts))
                 variants = [("sdl+schema{}", render_sdl(s, explicit_roots=True), "graphql"),
                             ("sdl+extend type", render_sdl(s, extensions=True), "graphql"),
+                            ("sdl+extend type written before the types", render_sdl(s, extensions="first"), "graphql"),
                             ("json", render_json(s), "json"), ("json+data", render_json(s, wrap_data=True), "json"),
                             ("json-no-builtin", render_json(s, with_builtin=False), "json")]
                 for (nm, text, ext) in variants:
@@ -340,6 +342,39 @@ def c14_front(tier):
                         r["witness"] = {"case": {"schema": text, "schema_ext": fmt, "query": q, "options": {"mode": "cli", "deprecation": strategy}}, "observed": r["detail"],
                                         "bounded": True, "how": "vx-replay (real crates)", "cases_tried": r["cases"]}
                         return [r]
+    # an object and an interface it implements both declare the field, with DIFFERENT deprecation: a selection on the object follows the
+    # object's declaration, a selection through the interface the interface's
+    sch = {"interfaces": {"Node": {"fields": [("id", "ID"), ("name", "String", "use_label"), ("label", "String")]}},
+           "objects": {"User": {"fields": [("id", "ID", ""), ("name", "String"), ("label", "String"), ("email", "String")], "implements": ["Node"]},
+                       "Query": {"fields": [("user", "User"), ("node", "Node")]}}, "query": "Query"}
+    q = "query Q { user { id name label email } node { __typename id name label } }"
+    want = {"QUser": {"id": True, "name": False, "label": False, "email": False}, "QNode": {"id": False, "name": True, "label": False}}
+    for fmt in ("graphql", "json"):
+        text = render_sdl(sch) if fmt == "graphql" else render_json(sch)
+        for strategy in ("warn", "deny"):
+            got = tokens_of(gen(text, fmt, q, {"deprecation": strategy}))
+            r["cases"] += 1
+            bad = None
+            if got[0] != "ok":
+                bad = "generation failed for a valid input: %s" % str(got[1])[:200]
+            else:
+                t = got[1]
+                for sname, members in want.items():
+                    m = re.search(r"pubstruct%s\{([^{}]*)\}" % sname, t)
+                    body = m.group(1) if m else ""
+                    for f, dep in members.items():
+                        present = ("pub%s:" % f) in body
+                        marked = bool(re.search(r"#\[deprecated[^\]]*\](?:#\[[^\]]*\])*pub%s:" % f, body))
+                        if strategy == "deny" and present != (not dep):
+                            bad = "%s.%s (deprecated in this type's own declaration: %s) is %s under deny" % (sname, f, dep, "present" if present else "omitted")
+                        if strategy == "warn" and (not present or marked != dep):
+                            bad = "%s.%s (deprecated in this type's own declaration: %s) is %s under warn" % (sname, f, dep, "marked #[deprecated]" if marked else ("not marked" if present else "missing"))
+            if bad:
+                r["status"] = "fail"
+                r["detail"] = "object and interface declare the same field with different deprecation, schema as %s, strategy %s: %s" % ("SDL" if fmt == "graphql" else "JSON", strategy, bad)
+                r["witness"] = {"case": {"schema": text, "schema_ext": fmt, "query": q, "options": {"mode": "cli", "deprecation": strategy}}, "observed": r["detail"],
+                                "bounded": True, "how": "vx-replay (real crates)", "cases_tried": r["cases"]}
+                return [r]
     return [r]
 
 
